@@ -162,6 +162,9 @@ class _Project:
         return None
 
     def find_relative_module(self, modname, folder, level):
+        if folder is None:
+            # the importing module has no resource (a string module): nothing to be relative to
+            return None
         for i in range(level - 1):
             folder = folder.parent
         if modname == "":
